@@ -1,27 +1,21 @@
-(* Conventions of the pandas / pyarrow implementations where they DIFFER from Spec/Builtins.v, written down as
-   executable variants (definitions only).  These are the "faithful model, defect present" side of the known findings
-   of C19: the correspondence check accepts, inside a known-finding domain only, either the spec or the variant.
+(* Conventions of the pandas / pyarrow implementations where they still DIFFER from Spec/Builtins.v, written down as
+   executable variants (definitions only).  These are the "faithful model, defect present" side of the OPEN known
+   findings of C19: the correspondence check accepts, inside a known-finding domain only, either the spec or the variant.
    Each variant is a description of OBSERVED library behaviour behind the named mloda code, not a model of pandas /
    pyarrow kernels.
 
      agg_pop                  pyarrow.py `pc.variance / pc.stddev` (ddof=0)                      [std/var, aggregation + windows]
      agg_pd_sum0              pandas.py  `Series.sum()` of an all-null column = 0                [aggregation only]
-     mode_smallest            pandas.py  `Series.mode().iloc[0]` = the smallest most frequent value
-     impute_mode_pa           pyarrow.py `pc.value_counts` counts nulls; first maximal entry wins; a null winner
-                              means `fill_null(col, None)`: nothing is imputed
-     qtrunc / fill_trunc      pyarrow.py `pc.fill_null(int64 column, float)` casts the fill value to int64 (truncation)
-     fill_stat_nofb           pandas.py  grouped mode: a group without a non-null value is left as it is (no fall-back)
-     pa_grouped_fill          pyarrow.py grouped ffill/bfill: positions inside the group are compared with the GLOBAL
-                              row number i
-     *_nk                     pandas groupby drops rows whose key contains a null, pyarrow `pc.equal(col, null)` selects
-                              nothing: a null key has no members
-     window_with              time windows with the aggregate convention as a parameter and, for pandas.py,
-                              `result.values` of the time-sorted frame written back POSITIONALLY
+     window_with, window_pa   time windows with the aggregate convention as a parameter
      re2_space, pd_*          pandas `str` columns are Arrow backed: `str.replace(regex=True)` is RE2, whose \s is
                               [\t\n\f\r ] (no \v, no \x1c-\x1f); `str.strip()` trims the Unicode white space
-     pd_clean_null            pandas.py `astype(str)` keeps a null cell null; `normalize` / `remove_punctuation` then
-                              raise (unicodedata.normalize / translate on a float) *)
-From Coq Require Import QArith Qabs Qround List Bool Arith ZArith Ascii.
+
+   REPAIRED in /repo (patches under fixes/), hence no longer described here and no longer accepted by the check:
+   pandas mode ties, pandas grouped mode without fall-back, pandas groupby(tuple), pandas positional window results,
+   pandas null text cells, pyarrow mode counting nulls, pyarrow truncating fill values of int columns, pyarrow grouped
+   ffill/bfill positions (and the crash on an empty group), null group keys on pandas / pyarrow, PythonDict grouped
+   imputation of string columns.  For all of these every framework is now held to the spec itself. *)
+From Coq Require Import QArith Qabs List Bool Arith ZArith Ascii.
 Import ListNotations.
 Require Import MV.Spec.Builtins MV.Model.TextCleanPyDict.
 Open Scope Q_scope.
@@ -32,151 +26,16 @@ Definition agg_pop (op : aggop) (c : col) : option Q :=
 Definition agg_pd_sum0 (op : aggop) (c : col) : option Q :=
   match op, vals c with ASum, [] => Some 0 | _, _ => agg_spec op c end.
 
-(* ---- imputation ---- *)
-Definition is_max_count (l : list Q) (x : Q) : bool := forallb (fun y => (count_of y l <=? count_of x l)%nat) l.
-Definition mode_smallest (l : list Q) : option Q := min_l (filter (is_max_count l) l).
-
-Definition cell_eqb (a b : cell) : bool :=
-  match a, b with None, None => true | Some x, Some y => Qeq_bool x y | _, _ => false end.
-Definition ccount (x : cell) (c : col) : nat := List.length (filter (cell_eqb x) c).
-(* first cell (null included) that no other cell beats in frequency *)
-Definition mode_cell (c : col) : option cell := find (fun x => forallb (fun y => (ccount y c <=? ccount x c)%nat) c) c.
-Definition mode_pa (c : col) : option Q := match mode_cell c with Some (Some v) => Some v | _ => None end.
-Definition impute_mode_pa (c : col) : col := fill_with (mode_pa c) c.
-
-(* cast float -> int64: rounding toward zero *)
-Definition qtrunc (q : Q) : Q := inject_Z (Z.quot (Qnum q) (Zpos (Qden q))).
-Definition fill_trunc (v : option Q) (c : col) : col := fill_with (option_map qtrunc v) c.
-(* mean / median / constant on an int64 Arrow column *)
-Definition impute_pa_int (m : imethod) (c : col) : col :=
-  match m with
-  | IMean => fill_trunc (mean_l (vals c)) c
-  | IMedian => fill_trunc (median_l (vals c)) c
-  | IConst k => fill_trunc (Some k) c
-  | _ => impute_spec m c
-  end.
-
-(* keys with a null cell match nothing when nk = true *)
-Definition key_has_null (k : key) : bool := existsb (fun x => match x with None => true | Some _ => false end) k.
-Definition members_nk (nk : bool) (keys : list key) (k : key) (c : col) : col :=
-  if nk && key_has_null k then [] else members keys k c.
-
-Definition stat_fb_nk (nk : bool) (stat : list Q -> option Q) (overall : option Q) (keys : list key) (c : col) (k : key)
-  : option Q := match stat (vals (members_nk nk keys k c)) with Some v => Some v | None => overall end.
-(* grouped statistic with the fall-back value given explicitly (None = no fall-back) *)
-Definition fill_stat_gen (nk : bool) (stat : list Q -> option Q) (overall : option Q) (keys : list key) (c : col) : col :=
-  map (fun p => match snd p with Some _ => snd p | None => stat_fb_nk nk stat overall keys c (fst p) end) (combine keys c).
-
-(* pandas grouped: mean/median with overall fall-back; mode WITHOUT fall-back and smallest-on-ties;
-   ffill/bfill via groupby.transform: rows with a null key come back null, also the non-null ones *)
-Definition drop_nullkey_rows (nk : bool) (keys : list key) (c : col) : col :=
-  map (fun p => if nk && key_has_null (fst p) then None else snd p) (combine keys c).
-Definition pd_grouped (nk : bool) (m : imethod) (keys : list key) (c : col) : col :=
-  match m with
-  | IMean => fill_stat_gen nk mean_l (mean_l (vals c)) keys c
-  | IMedian => fill_stat_gen nk median_l (median_l (vals c)) keys c
-  | IMode => fill_stat_gen nk mode_smallest None keys c
-  | IConst k => fill_with (Some k) c
-  | IFfill | IBfill => drop_nullkey_rows nk keys (impute_grouped_spec m keys c)
-  end.
-
-(* pyarrow grouped: statistics with overall fall-back (mode counts nulls, group and overall);
-   ffill/bfill: group_data = all cells of the group; valid = positions INSIDE group_data of its non-null cells;
-   ffill takes the largest valid position < i, bfill the smallest > i, where i is the row number in the table *)
-Fixpoint valid_positions (n : nat) (g : col) : list nat :=
-  match g with [] => [] | Some _ :: t => n :: valid_positions (S n) t | None :: t => valid_positions (S n) t end.
-Definition pa_grouped_fill (fwd : bool) (nk : bool) (keys : list key) (c : col) : col :=
-  map (fun i =>
-         match nth i c None with
-         | Some v => Some v
-         | None =>
-             let g := members_nk nk keys (nth i keys []) c in
-             let valid := valid_positions 0 g in
-             if fwd then match rev (filter (fun j => (j <? i)%nat) valid) with j :: _ => nth j g None | [] => None end
-             else match filter (fun j => (i <? j)%nat) valid with j :: _ => nth j g None | [] => None end
-         end) (seq 0 (List.length c)).
-Definition mode_pa_l (g : col) : option Q := mode_pa g.
-Definition pa_grouped (nk : bool) (m : imethod) (keys : list key) (c : col) : col :=
-  match m with
-  | IMean => fill_stat_gen nk mean_l (mean_l (vals c)) keys c
-  | IMedian => fill_stat_gen nk median_l (median_l (vals c)) keys c
-  | IMode => map (fun p => match snd p with
-                           | Some _ => snd p
-                           | None => match mode_pa (members_nk nk keys (fst p) c) with Some v => Some v | None => mode_pa c end
-                           end) (combine keys c)
-  | IConst k => fill_with (Some k) c
-  | IFfill => pa_grouped_fill true nk keys c
-  | IBfill => pa_grouped_fill false nk keys c
-  end.
-(* the spec's grouping with null keys matching nothing (what "null key = no group" means for the statistics) *)
-Definition spec_grouped_nk (m : imethod) (keys : list key) (c : col) : col :=
-  match m with
-  | IMean => fill_stat_gen true mean_l (mean_l (vals c)) keys c
-  | IMedian => fill_stat_gen true median_l (median_l (vals c)) keys c
-  | IMode => fill_stat_gen true mode_l (mode_l (vals c)) keys c
-  | _ => impute_grouped_spec m keys c
-  end.
-
-(* ---- the same conventions with one switch per recorded deviation (true = deviation present, false = repaired):
-        the correspondence check accepts, inside a known-finding domain, any combination of present / repaired, so that
-        repairing one defect of /repo at a time never raises an alarm.  All switches true = the definitions above. ---- *)
-Record pdconv := { pd_tie : bool; pd_nofb : bool; pd_nk : bool; pd_tuple : bool }.
-Record paconv := { pa_modenull : bool; pa_trunc : bool; pa_fillidx : bool; pa_nk : bool; pa_crash : bool }.
-
-Definition pd_mode (tie : bool) (l : list Q) : option Q := if tie then mode_smallest l else mode_l l.
-Definition pd_ungrouped_cv (cv : pdconv) (m : imethod) (c : col) : col :=
-  match m with IMode => fill_with (pd_mode (pd_tie cv) (vals c)) c | _ => impute_spec m c end.
-Definition pd_grouped_cv (cv : pdconv) (m : imethod) (keys : list key) (c : col) : col :=
-  let nk := pd_nk cv in
-  match m with
-  | IMean => fill_stat_gen nk mean_l (mean_l (vals c)) keys c
-  | IMedian => fill_stat_gen nk median_l (median_l (vals c)) keys c
-  | IMode => fill_stat_gen nk (pd_mode (pd_tie cv)) (if pd_nofb cv then None else pd_mode (pd_tie cv) (vals c)) keys c
-  | IConst k => fill_with (Some k) c
-  | IFfill | IBfill => drop_nullkey_rows nk keys (impute_grouped_spec m keys c)
-  end.
-
-Definition pa_mode (mn : bool) (g : col) : option Q := if mn then mode_pa g else mode_l (vals g).
-(* repaired positions; a row with a null key still has no group when nk: its cell is left as it is *)
-Definition keep_nullkey_rows (nk : bool) (keys : list key) (c s : col) : col :=
-  map (fun p => if nk && key_has_null (fst p) then fst (snd p) else snd (snd p)) (combine keys (combine c s)).
-Definition pa_fill_cv (cv : paconv) (fwd : bool) (keys : list key) (c : col) : col :=
-  if pa_fillidx cv then pa_grouped_fill fwd (pa_nk cv) keys c
-  else keep_nullkey_rows (pa_nk cv) keys c (impute_grouped_spec (if fwd then IFfill else IBfill) keys c).
-Definition pa_grouped_cv (cv : paconv) (m : imethod) (keys : list key) (c : col) : col :=
-  let nk := pa_nk cv in
-  match m with
-  | IMean => fill_stat_gen nk mean_l (mean_l (vals c)) keys c
-  | IMedian => fill_stat_gen nk median_l (median_l (vals c)) keys c
-  | IMode => map (fun p => match snd p with
-                           | Some _ => snd p
-                           | None => match pa_mode (pa_modenull cv) (members_nk nk keys (fst p) c) with
-                                     | Some v => Some v
-                                     | None => pa_mode (pa_modenull cv) c
-                                     end
-                           end) (combine keys c)
-  | IConst k => fill_with (Some k) c
-  | IFfill => pa_fill_cv cv true keys c
-  | IBfill => pa_fill_cv cv false keys c
-  end.
-Definition pa_ungrouped_cv (cv : paconv) (is_int : bool) (m : imethod) (c : col) : col :=
-  match m with
-  | IMode => fill_with (pa_mode (pa_modenull cv) c) c
-  | IMean | IMedian | IConst _ => if is_int && pa_trunc cv then impute_pa_int m c else impute_spec m c
-  | _ => impute_spec m c
-  end.
-
 (* ---- time windows ---- *)
 Definition win_agg_with (agg : aggop -> col -> option Q) (op : wop) (w : col) : option Q :=
   match op with WAgg a => agg a w | WFirst => hd None w | WLast => last w None end.
-Definition window_with (agg : aggop -> col -> option Q) (positional : bool) (op : wop) (w : nat) (times : list Z) (c : col)
+Definition window_with (agg : aggop -> col -> option Q) (op : wop) (w : nat) (times : list Z) (c : col)
   : list (option Q) :=
   let ord := time_order times in
   let sorted := map (fun i => nth i c None) ord in
   let res := map (fun i => win_agg_with agg op (window_at w i sorted)) (seq 0 (List.length sorted)) in
-  if positional then res else map (fun i => nth (pos_of i ord) res None) (seq 0 (List.length c)).
-Definition window_pa := window_with agg_pop false.
-Definition window_pd := window_with agg_spec true.
+  map (fun i => nth (pos_of i ord) res None) (seq 0 (List.length c)).
+Definition window_pa := window_with agg_pop.
 
 (* ---- text ---- *)
 Definition re2_space (a : ascii) : bool :=
@@ -194,5 +53,3 @@ Definition pd_apply (o : cleanop) (s : text) : text :=
 Definition pd_clean (ops : list cleanop) (s : text) : text := fold_left (fun acc o => pd_apply o acc) ops s.
 Definition odd_space (a : ascii) : bool := re_space a && negb (re2_space a).
 
-(* outcome for a null cell on pandas: None = the run raises, Some None = the cell stays null *)
-Definition pd_clean_null (ops_raise : bool) : option (option text) := if ops_raise then None else Some None.
